@@ -89,6 +89,15 @@ class Potential_Form_Registry(object):
         raise Potential_Form_Registry_Exception("Two potential forms have the same label in [Potential-Form] section: '{0}'".format(d.signature.label))
       if d.signature.label in self._potential_forms or d.signature.label in self._reserved_labels:
         raise Potential_Form_Registry_Exception("The label of a [Potential-Form] entry is already used by another potential form (for instance a [Table-Form]): '{0}'".format(d.signature.label))
+      # Formulas are evaluated by exprtk, whose symbol names are case-insensitive: names that differ only
+      # in letter case denote ONE symbol there, so they cannot be kept apart and are refused.
+      for other in list(potential_forms.keys()) + list(self._potential_forms.keys()):
+        if other.lower() == d.signature.label.lower():
+          raise Potential_Form_Registry_Exception("Two potential forms have labels that differ only in letter case, which formulas cannot distinguish: '{0}' and '{1}'".format(other, d.signature.label))
+      lowered = [p.lower() for p in d.signature.parameter_names]
+      if len(set(lowered)) != len(lowered):
+        raise Potential_Form_Registry_Exception("Parameter names of [Potential-Form] entry '{0}' differ only in letter case, which formulas cannot distinguish: {1}".format(
+          d.signature.label, ", ".join(d.signature.parameter_names)))
       func = _Cexptrk_Potential_Function(d)
       pf = Potential_Form(func)
       potential_forms[d.signature.label] = pf
@@ -102,6 +111,9 @@ class Potential_Form_Registry(object):
     for d in definitions:
       if d.name in self._potential_forms or d.name in table_forms or d.name in self._reserved_labels:
         raise Potential_Form_Registry_Exception("The label of [Table-Form:{0}] is already used by another potential form".format(d.name))
+      for other in list(table_forms.keys()) + list(self._potential_forms.keys()):
+        if other.lower() == d.name.lower():
+          raise Potential_Form_Registry_Exception("The label of [Table-Form:{0}] differs only in letter case from that of another potential form ('{1}'), which formulas cannot distinguish".format(d.name, other))
 
       pf = builder.create_potential_form(d)
       table_forms[d.name] = pf
